@@ -302,10 +302,15 @@ class C20(Prop):
     def gen(self, seed, tier):
         r = random.Random(seed); g = T(seed, valid=1.0); ops = []
         extras = ['i-1', 'i-2', 'i-65537', 'i%d' % (-2**63), 'i0', 'i6', 'i23', 'i24', 'i255', 'i256', 'i65536', 'i%d' % (2**63 - 1), 't', 't61', 't62', 't6161', 't' + (b'x' * 24).hex(), 'i-24', 'i-25', 'i-256', 'i-257', 'tc3a9', 'tc3a9c3a9', 't616263', 'te282ac', 't7a7a']
+        # parameter values: scalars, and values that themselves hold maps with entries in no particular order, directly or inside
+        # arrays / tags / other maps (seeded C20-r4: canonicalize must not touch them)
+        NESTED = ['(map t62 i2 i256 i1 i-1 i0)', '(map i2 N i1 N)', '(arr (map t6262 i1 t61 i2) i7)', '(tag 99 (map i10 i1 i9 i2))',
+                  '(map i1 (map t7a i1 t61 i2) i0 (arr))', '(map i-1 i0 i-25 i1 i24 i2)', '(arr (arr (map b02 i1 b01 i2)))', '(map i1 i1 i1 i2)']
+        VALS = ['N', 'i1', 'b00', '(arr)', 't61'] * 2 + NESTED
         def keyform(params):
             kty = r.choice(['A1', 'A2', 'A4', 'X6b']); kid = r.choice(['b', 'b01']); alg = r.choice(['-', 'A-7', 'P-70000', 'X61'])
             ops_ = r.choice(['', ' A1', ' A2 A1', ' X78 A10 A3']); biv = r.choice(['b', 'b0909'])
-            ps = ' '.join('%s %s' % (l, r.choice(['N', 'i1', 'b00', '(arr)', 't61'])) for l in params)
+            ps = ' '.join('%s %s' % (l, r.choice(VALS)) for l in params)
             return '(key %s %s %s (ops%s) %s (params%s))' % (kty, kid, alg, ops_, biv, (' ' + ps) if ps else '')
         sets = []
         for n in range(0, 5):
